@@ -1,5 +1,6 @@
 """C16: linear-algebra routines (matmul x2, dot, inner, outer, vecdot, tensordot, kron, trace) equal NumPy on integer-valued data."""
 import itertools
+import os
 
 import numpy as np
 
@@ -84,10 +85,10 @@ def gen_cases(rng, tier):
         add2("la_matmulv2", a, b)
     # ---- dot / inner
     dd = [(a, b) for a, b in pairs if valid(np.dot, a, b)]
-    for a, b in (sub(dd, 450) if quick else dd):
+    for a, b in (sub(dd, 350) if quick else dd):
         add2("la_dot", a, b)
     ii = [(a, b) for a, b in pairs if valid(np.inner, a, b)]
-    for a, b in (sub(ii, 450) if quick else ii):
+    for a, b in (sub(ii, 350) if quick else ii):
         add2("la_inner", a, b)
     # ---- outer: all pairs of dim<=2 + sample
     lo = [(a, b) for a, b in pairs if len(a) <= 2 and len(b) <= 2]
@@ -96,7 +97,7 @@ def gen_cases(rng, tier):
         add2("la_outer", a, b)
     # ---- vecdot
     vv = [(a, b) for a, b in pairs if valid(np.vecdot, a, b)]
-    for a, b in (sub(vv, 300) if quick else vv):
+    for a, b in (sub(vv, 220) if quick else vv):
         for kd in (0, 1):
             add2("la_vecdot", a, b, "%d" % kd, keepdims=kd)
     # ---- tensordot, integer axes
@@ -374,6 +375,11 @@ def oracle(ctx, cr):
 
 def run(ctx):
     cases = gen_cases(ctx.rng, ctx.tier)
+    only = [t for t in os.environ.get("VERIF_ONLY_OPS", "").split(",") if t]
+    if only:
+        # debugging aid (mutant triage): restrict the run to these ops ("name" or "prefix*"); only their binaries are built
+        cases = [c for c in cases if any(c["op"] == t or (t.endswith("*") and c["op"].startswith(t[:-1])) for t in only)]
+        ctx.set("restricted_to_ops", only)
     res = V.run_module_cases(HARNESS, cases, "asan", parse=parse)
     acc = HookAcc()
     norec = 0
@@ -390,7 +396,7 @@ def run(ctx):
             norec += 1
     if norec:
         ctx.inconc("%d cases produced no record" % norec)
-    ctx.rule = ("NumPy-valid operand shape pairs; quick: all pairs of dim 1..3 / extents 1..3 for matmul (both implementations), dot, inner (<=450 sampled), vecdot x keepdims, "
+    ctx.rule = ("NumPy-valid operand shape pairs; quick: all pairs of dim 1..3 / extents 1..3 for matmul (both implementations), dot, inner (<=350 sampled), vecdot x keepdims, "
                 "tensordot n=0..3 and every explicit (lhs axes, rhs axes) pairing x 3 shape draws, outer/kron sampled per dim pair, trace over every axis pair and offset incl. empty diagonals; "
                 "thorough: + ~100k sampled dim<=4 / extents<=4. distinct = (op, lhs shape, rhs shape, arguments) whose result has more than one element")
     ctx.set("hook_events", acc.summary())
